@@ -306,3 +306,22 @@ def d6(ctx, rep):
         good = bool(made and fitted and frets) and all(isinstance(r.value, ast.Name) and r.value.id == gv for r in frets)
         rep.check('D6.fallback', fb, made[0] if made else fb.node.name, good, 'GaussianUnivariate() fitted on the same column and returned',
                   'the fallback is not a GaussianUnivariate fitted on the failing column', construct='fallback model')
+        # the fallback path itself must not be able to raise before the Gaussian is fitted: no partial operation on
+        # the objects it is handed (their type is exactly what is in doubt on this path)
+        others = [p for p in fb.params[1:] if p not in cparam]
+        stop = fitted[0].lineno if fitted else 10 ** 9
+        for n in walk_no_nested(fb.node):
+            if getattr(n, 'lineno', 0) > stop:
+                continue
+            partial = None
+            if isinstance(n, ast.Attribute) and isinstance(n.value, ast.Name) and n.value.id in others and n.attr != '__class__':
+                partial = f'attribute .{n.attr} of `{n.value.id}`'
+            if isinstance(n, ast.Subscript) and isinstance(n.value, ast.Name) and n.value.id in others:
+                partial = f'subscript of `{n.value.id}`'
+            if isinstance(n, ast.Subscript) and isinstance(n.value, ast.Attribute) and isinstance(n.value.value, ast.Name) \
+                    and n.value.value.id in others:
+                partial = f'subscript of `{n.value.value.id}.{n.value.attr}`'
+            if partial:
+                rep.bad('D6.fallback', fb, n, f'{partial} is evaluated on the fallback path before the Gaussian is fitted: for a '
+                        'configuration object without it (class, name or instance prototype) the exception escapes and fit fails '
+                        'instead of falling back', construct=f'partial operation: {short(n, 50)}')
